@@ -94,3 +94,20 @@ From RS Require Import PipelineOptStmts PipelineOptFacts.
 Theorem C06_pipeline_with_modelled_optimiser_returns : stmt_pipeline_opt_never_crashes_loaded.
 Proof. exact pipeline_opt_never_crashes_loaded. Qed.
 Print Assumptions C06_pipeline_with_modelled_optimiser_returns.
+
+(** THE WHOLE MODELLED PIPELINE RETURNS. The schedule local search terminates: on every schedule the search can visit from
+    the start schedule of a loaded network all four objective levels are bounded below by 0 (exact unserved passengers,
+    exact violation, vehicle count, exact costs with non-negative rates), accepted steps descend strictly in the lexicographic
+    order, so for every pick honouring the min_by contract the loop stops after finitely many steps at a local optimum
+    (run_terminates_inv: termination relative to an invariant closed under the neighbourhood). Together with the optimiser's
+    totality: for every network loaded from a valid instance, every start solution as above and every pair of picks there are
+    fuel bounds with which the search stops, the optimisation returns, the end depots are aligned and the answer renders —
+    no oracle between the flow tours and the JSON except the two picks. (What remains outside: the external flow solver's own
+    termination and the runtime — threads, memory, integer widths.) *)
+From RS Require Import SearchTermStmts SearchTermFacts.
+Theorem C06_schedule_search_terminates : stmt_schedule_search_terminates_loaded.
+Proof. exact schedule_search_terminates_loaded. Qed.
+Print Assumptions C06_schedule_search_terminates.
+Theorem C06_whole_pipeline_returns : stmt_whole_pipeline_returns_loaded.
+Proof. exact whole_pipeline_returns_loaded. Qed.
+Print Assumptions C06_whole_pipeline_returns.
